@@ -35,7 +35,7 @@ ANCHORS = [
     "acnportal.acnsim.events.stochastic_events:StochasticEvents._convert_ev_matrix",
     "acnportal.acnsim.models.battery:batt_cap_fn",
 ]
-REQUIRED = ["doc_batches_with_a_naive_simulation_window", "doc_batches_with_user_inputs", "doc_batches_with_zoneinfo_datetimes", "doc_batches_through_generate_events", "integer_typed_sample_matrices", "doc_evs_judged", "stoch_evs_judged", "fits_judged", "regime:fit-init-above-transition",
+REQUIRED = ["calls_leaving_default_options_unmentioned", "doc_batches_with_a_naive_simulation_window", "doc_batches_with_user_inputs", "doc_batches_with_zoneinfo_datetimes", "doc_batches_through_generate_events", "integer_typed_sample_matrices", "doc_evs_judged", "stoch_evs_judged", "fits_judged", "regime:fit-init-above-transition",
             "regime:fit-init-below-transition", "regime:max_len-capped", "regime:force_feasible-capped",
             "regime:doc-capacity_fn", "regime:stoch-capacity_fn", "gmm_evs_judged"]
 BUDGET_S = {"quick": 200, "thorough": 2400}
@@ -195,6 +195,11 @@ def _run_docs(case, obs):
         obs.ev("doc_batches_with_user_inputs")
     fake = FakeRequests(docs, cap=rng.choice([1000, 7]))
     kw = dict(max_len=case["max_len"], battery_params=bp, force_feasible=case["ff"])
+    if case["seed"] % 2 == 0:
+        # half of the callers do not mention an option they leave at its documented default (max_len=None, battery_params=None,
+        # force_feasible=False): the defaults are part of the API
+        kw = {k_: v_ for k_, v_ in kw.items() if not (v_ is None or v_ is False)}
+        obs.ev("calls_leaving_default_options_unmentioned")
     RealClient = getattr(ae.DataClient, "_verif_real", ae.DataClient)
 
     class ZIClient:
@@ -369,8 +374,11 @@ def _run_stoch(case, obs):
         spd[0] = case["n"]
     cfg = dict(period=period, V=V, P=P, max_len=case["max_len"], ff=case["ff"], bp=case["bp"], sessions_per_day=spd)
     try:
-        q = Gen().generate_events(spd, period, V, P, max_len=case["max_len"], battery_params=bp,
-                                  force_feasible=case["ff"])
+        kw_ = dict(max_len=case["max_len"], battery_params=bp, force_feasible=case["ff"])
+        if case["seed"] % 2 == 0:
+            kw_ = {k_: v_ for k_, v_ in kw_.items() if not (v_ is None or v_ is False)}  # documented defaults left unmentioned
+            obs.ev("calls_leaving_default_options_unmentioned")
+        q = Gen().generate_events(spd, period, V, P, **kw_)
     except ValueError as e:
         # a fit request that cannot be met is refused with ValueError: "No feasible battery size", or - for a stay of zero
         # periods, where the closed form divides by zero - the Battery constructor's own "Initial Charge cannot be greater
@@ -432,8 +440,12 @@ def _run_stoch(case, obs):
             obs.violate("stoch_period_index", f"arrival/departure {(ev.arrival, ev.departure)} expected {(ea, ed)}", **wit)
         if not (ev.departure >= ev.arrival):
             obs.violate("stoch_departure_before_arrival", "", **wit)
-        if not (abs(float(ev.requested_energy) - e_exp) <= 1e-12 * max(1, e_exp)):
+        # force_feasible: "what the maximum power delivers during the stay" - the stay measured in hours as sampled (the library's
+        # reading) or in whole periods as simulated are both faithful
+        alts = [e_exp] + ([min(en, P * (ed - ea) * period / 60.0)] if case["ff"] else [])
+        if not any(abs(float(ev.requested_energy) - x_) <= 1e-12 * max(1, x_) for x_ in alts):
             obs.violate("stoch_requested_energy", f"{ev.requested_energy!r} expected {e_exp!r}", **wit)
+        e_exp = min(alts, key=lambda x_: abs(float(ev.requested_energy) - x_))
         _check_battery(obs, ev, e_exp, P, "stoch+fit" if case["bp"] == "fit" else "stoch", wit)
         if case["bp"] == "fit":
             obs.regime("regime:stoch-capacity_fn")
